@@ -561,6 +561,9 @@ int load_topology(const Env &env, TopoState &ts, const std::string &kind, const 
   return 0;
 }
 
+// object tree only: touches none of the lazily refreshed caches (the XML export below refreshes distances and memattrs, which would
+// repair, before the readers start, a cache that hwloc_topology_refresh() wrongly left invalid)
+uint64_t tree_digest(hwloc_topology_t t) { Dg d; walk_rec(t, hwloc_get_root_obj(t), d, 0); return d.h; }
 uint64_t topo_digest(hwloc_topology_t t) {
   Dg d; walk_rec(t, hwloc_get_root_obj(t), d, 0);
   char *buf = nullptr; int len = 0;
@@ -858,7 +861,7 @@ struct SchedMachine : Machine {
       if (nmods) r.count(ts.invalidating ? "probe.history_invalidated_lazy_caches" : "probe.history_without_invalidation");
       if (!selftest) { r.curop = "refresh"; int rr = hwloc_topology_refresh(ts.t); r.ev("refresh rc=%d", rr); }
       uint64_t D = 0;
-      if (!selftest) { r.curop = "digest"; D = topo_digest(ts.t); r.ev("D=%016llx", (unsigned long long)D); }
+      if (!selftest) { r.curop = "digest"; D = tree_digest(ts.t); r.ev("D=%016llx", (unsigned long long)D); }
       std::vector<std::pair<sched::TaskFn, void *>> tasks;
       for (int i = 0; i < T; i++) { tc[i].shared = ts.t; tasks.push_back({task_entry, &tc[i]}); }
       r.curop = "phaseA";
@@ -867,6 +870,8 @@ struct SchedMachine : Machine {
       uint64_t lazy_ops = 0; for (auto &c : tc) for (auto &po : c.ops) { r.nops++; if (RD[po.kind].lazy) lazy_ops++; }
       if (selftest) { r.ev("selftest"); hwloc_topology_destroy(ts.t); return; }
       if (ts.invalidating) r.count("probe.lazy_refresh_branch_not_taken", lazy_ops);
+      r.curop = "digest";
+      uint64_t Dfull = topo_digest(ts.t);   // full digest (with XML export) right after the concurrent phase ...
       // single-threaded replay on the same topology: same answers, topology untouched
       r.curop = "replayA";
       for (int i = 0; i < T; i++) {
@@ -880,7 +885,8 @@ struct SchedMachine : Machine {
         }
       }
       r.curop = "digest";
-      uint64_t D2 = topo_digest(ts.t);
+      uint64_t D2 = tree_digest(ts.t), Dfull2 = topo_digest(ts.t);   // ... and again after the single-threaded replay
+      if (Dfull2 != Dfull) r.fail0("sched.topology_changed", "full topology digest %016llx after the reader phase, %016llx after the single-threaded replay of the same calls", (unsigned long long)Dfull, (unsigned long long)Dfull2);
       if (D2 != D) r.fail0("sched.topology_changed", "topology digest %016llx before the reader phase, %016llx after it (readers must not modify the topology)", (unsigned long long)D, (unsigned long long)D2);
       r.ev("phase steps=%llu switches=%llu forced=%llu sig=%016llx", (unsigned long long)res.steps, (unsigned long long)res.switches, (unsigned long long)res.forced_switches, (unsigned long long)res.signature);
       r.distinct("state", mix2(mix2(srchash, 0xA), res.signature)); r.distinct("interleaving", res.signature);
